@@ -340,6 +340,21 @@ def run_spellings(ctx):
     focus_b.append('Year!A1')
     books.append(('same formula text on several sheets', sb, focus_b,
                   inputs_b))
+    # (c) sheet names that need quoting, one with an apostrophe of its own
+    sb = xlsxw.SheetBuilder()
+    for sh_ in ("Bob's Data", 'My Data', 'a-b'):
+        sb.put_value(sh_, 1, 1, 10)
+        sb.put_value(sh_, 1, 2, 20)
+        sb.put_formula(sh_, 1, 3, '=A1+A2')
+    sb.put_formula('Calc', 1, 1, "='Bob''s Data'!A1+1")
+    sb.put_formula('Calc', 1, 2, "='Bob''s Data'!$A$2*2+'My Data'!A1")
+    sb.put_formula('Calc', 1, 3, "='Bob''s Data'!A3+'a-b'!A3")
+    sb.put_formula('Calc', 1, 4, "=SUM('Bob''s Data'!A1:A2)+'a-b'!$A1")
+    books.append(('quoted sheet names', sb,
+                  ['Calc!A1', 'Calc!A2', 'Calc!A3', 'Calc!A4',
+                   "Bob's Data!A3"],
+                  ["Bob's Data!A1", "Bob's Data!A2", 'My Data!A1',
+                   'a-b!A1', 'a-b!A2']))
     for label, sb, focus_cells, inputs in books:
         path = os.path.join(out, f'spell{ctx.shard}.xlsx')
         sb.write(path)
